@@ -9,6 +9,7 @@ sys.path.insert(0, os.path.dirname(os.path.abspath(__file__)))
 
 GROUP = {
     'C19': 'chk_ident',
+    'C01': 'chk_circuit', 'C02': 'chk_circuit', 'C04': 'chk_circuit',
 }
 
 
